@@ -152,6 +152,8 @@ impl Hooks for Ctl {
     }
 
     fn spawning(&self, _parent: ThreadId) -> ThreadId {
+        // the next thread this OS thread creates is a scheduled worker, not an unscheduled one
+        crate::entropy::expect_spawn();
         let mut g = self.lock();
         let tid = g.next_tid;
         g.next_tid += 1;
@@ -312,6 +314,7 @@ impl System {
             .name("sim-loop".into())
             .spawn(move || {
                 MY_TID.with(|t| t.set(0));
+                crate::entropy::mark_server_thread(true);
                 iwes::verif::install(hooks, 0);
                 let r = std::panic::catch_unwind(std::panic::AssertUnwindSafe(|| iwes::main_loop(server_conn, params)));
                 // if main_loop returned without passing LoopExit (e.g. panicked while building the server)
